@@ -7,7 +7,7 @@ DRIVERS = [
     dict(name="life_noop", src="life.cpp", defines=["LIFE_NOOP"], ops=["lifen"]),
     dict(name="life_dylib", src="life.cpp", defines=["LIFE_DYLIB"], ops=["lifed"]),      # rlbox_dylib_sandbox (bound to libc.so.6)
 ]
-ALPHA13 = ["r:0:0:1", "r:0:0:2", "r:1:0:1", "r:1:0:2", "r:2:0:3", "u:0", "u:1", "ma:0:1", "ma:1:0", "ma:0:0", "ma:2:0", "mc:2:0", "mc:2:1", "mc:0:2",
+ALPHA13 = ["r:0:0:1", "r:0:0:2", "r:1:0:1", "r:1:0:2", "r:2:0:3", "u:0", "u:1", "ur:0", "ma:0:1", "ma:1:0", "ma:0:0", "ma:2:0", "mc:2:0", "mc:2:1", "mc:0:2",
            "q:0", "q:1", "occ:0", "gs:0:0", "gs:0:1", "gs:0:3", "go:0:0", "go:1:0", "go:2:0", "fill:0:2", "fill:0:3", "d:0", "c:0:1", "r:0:1:1", "c:1:1"]
 
 
@@ -33,7 +33,7 @@ def gen_cases(tier, rng):
         cases.append("life32 c:0:1 r:0:0:1 r:1:0:2 r:2:0:4 " + " ".join(rel) + " occ:0 r:0:0:5 occ:0")
     for c in list(cases[::5]):
         if c.startswith("life32"):
-            cases.append("lifen " + c.split(" ", 1)[1])
+            cases.append("lifen " + c.split(" ", 1)[1].replace("ur:", "u:"))     # (the shipped back ends have no hook for "ur")
     # the other shipped back end has its own slot table and trampolines: every no-op history runs on it too
     for c in list(cases):
         if c.startswith("lifen"):
